@@ -2,7 +2,7 @@
 
 use crate::engine::*;
 use crate::pipeline::show_out;
-use crate::subject::{rule, Out, Prof, RuleFn};
+use crate::subject::{rule, rule_owned, Out, Prof, RuleFn};
 use serde_json::json;
 
 /// Run `prof.rulefn(s)` and compare with the expected string; then check
@@ -12,6 +12,12 @@ pub fn check_rule_fn(p: Prof, r: RuleFn, s: &str, expected: &str, idem: bool, st
     st.evaluations += 1;
     st.traces += 1;
     let mk = || Case::new("rulefn").s(s).x(json!([p.name(), r.name()]));
+    // same content whether the argument is borrowed or owned
+    let got_owned = rule_owned(p, r, s);
+    st.evaluations += 1;
+    if got_owned != got {
+        st.violation("owned_vs_borrowed", mk, format!("String argument gives what &str gives: {}", show_out(&got)), show_out(&got_owned));
+    }
     match &got {
         Out::Ok(o) if o == expected => {
             if idem {
